@@ -211,6 +211,11 @@ impl<'a> Packet<'a> {
 
     /// Write the contents of this package in wire format with enabled compression into the provided writer
     pub fn write_compressed_to<T: Write + Seek>(&self, out: &mut T) -> crate::Result<()> {
+        // compression pointers are offsets from the first byte of the message, which is not the
+        // first byte of the writer when the caller positioned it somewhere else
+        let base = out.stream_position()?;
+        let out = &mut MessageWriter { inner: out, base };
+
         self.write_header(out)?;
 
         let mut name_refs = HashMap::new();
@@ -244,6 +249,35 @@ impl<'a> Packet<'a> {
             self.name_servers.len() as u16,
             self.additional_records.len() as u16 + u16::from(self.header.opt.is_some()),
         )
+    }
+}
+
+/// Presents a writer that was handed over at position `base` as if the message started at offset 0
+struct MessageWriter<'w, T> {
+    inner: &'w mut T,
+    base: u64,
+}
+
+impl<T: Write> Write for MessageWriter<'_, T> {
+    fn write(&mut self, buf: &[u8]) -> std::io::Result<usize> {
+        self.inner.write(buf)
+    }
+
+    fn flush(&mut self) -> std::io::Result<()> {
+        self.inner.flush()
+    }
+}
+
+impl<T: Seek> Seek for MessageWriter<'_, T> {
+    fn seek(&mut self, pos: std::io::SeekFrom) -> std::io::Result<u64> {
+        let absolute = match pos {
+            std::io::SeekFrom::Start(offset) => {
+                self.inner.seek(std::io::SeekFrom::Start(self.base + offset))?
+            }
+            relative => self.inner.seek(relative)?,
+        };
+
+        Ok(absolute.saturating_sub(self.base))
     }
 }
 
